@@ -296,8 +296,12 @@ def r18_4(ctx: Ctx) -> None:
         for n in cfg.nodes:
             if n.kind == "test" and cfg.dominates(n, un) and any(isinstance(x, ast.BoolOp) and isinstance(x.op, ast.Or) for x in [n.ast]):
                 for v in n.ast.values:
-                    if isinstance(v, ast.Compare) and norm(v.left) == exit_var and isinstance(v.ops[0], (ast.LtE, ast.Eq, ast.Lt)) and isinstance(v.comparators[0], ast.Constant):
-                        flush = True
+                    if isinstance(v, ast.Compare) and norm(v.left) == exit_var and isinstance(v.comparators[0], ast.Constant):
+                        k_ = v.comparators[0].value
+                        # true when nothing is left: `<= 0`, `== 0`, `< 1` (a `< 0` is never true: the remainder does not go negative)
+                        if (isinstance(v.ops[0], ast.LtE) and k_ == 0) or (isinstance(v.ops[0], ast.Eq) and k_ == 0) or (isinstance(v.ops[0], ast.Lt) and k_ == 1) \
+                                or (isinstance(v.ops[0], ast.LtE) and isinstance(k_, int) and k_ > 0):
+                            flush = True
         ctx.check(flush, "R18.4", f, c, "update is flushed when the member's last chunk was decoded",
                   "the update event is not forced on the iteration that completes the member: trailing bytes are never reported")
 
